@@ -38,23 +38,23 @@ import (
 //@   loop 1 decreases len(data) - pos
 
 //@ func parseOpacity
-//@   props C07
+//@   props C07 C01
 //@   nopanic
 //@   modifies nothing
 
 //@ func parseURL
-//@   props C07
+//@   props C07 C01
 //@   nopanic
 //@   modifies nothing
 //@   ensures result1 == nil ==> result0 != nil
 
 //@ func parseURLFragment
-//@   props C07
+//@   props C07 C01
 //@   nopanic
 //@   modifies nothing
 
 //@ func parseViewbox
-//@   props C07 C18
+//@   props C07 C18 C01
 //@   nopanic
 //@   modifies nothing
 
@@ -84,7 +84,7 @@ func vBez3(p0, p1, p2, p3, t Fl) Fl {
 //@   ensures x + rx == 2 * px && y + ry == 2 * py
 
 //@ func (*pathParser).reset
-//@   props C18 C07
+//@   props C18 C07 C01
 //@   nopanic
 //@   requires c != nil
 //@   modifies *c
@@ -131,7 +131,7 @@ func vBez3(p0, p1, p2, p3, t Fl) Fl {
 
 // relative coordinates: each value is offset by the (already absolute) previous one
 //@ func (*pathParser).valsToAbs
-//@   props C18 C07
+//@   props C18 C07 C01
 //@   nopanic
 //@   requires c != nil
 //@   modifies c.points[..]
@@ -140,7 +140,7 @@ func vBez3(p0, p1, p2, p3, t Fl) Fl {
 
 // relative coordinate groups of sz values: group g is offset by the end point of group g-1
 //@ func (*pathParser).pointsToAbs
-//@   props C18 C07
+//@   props C18 C07 C01
 //@   nopanic
 //@   requires c != nil && sz >= 2 && sz % 2 == 0 && len(c.points) % sz == 0
 //@   modifies c.points[..]
@@ -150,14 +150,14 @@ func vBez3(p0, p1, p2, p3, t Fl) Fl {
 //@   loop 2 decreases sz - i
 
 //@ func (*pathParser).hasSetsOrMore
-//@   props C18 C07
+//@   props C18 C07 C01
 //@   nopanic
 //@   requires c != nil && sz >= 1 && (rel ==> sz >= 2 && sz % 2 == 0)
 //@   modifies c.points[..]
 //@   ensures result == (len(c.points) >= sz && len(c.points) % sz == 0)
 
 //@ func (*pathParser).getPoints
-//@   props C18 C07
+//@   props C18 C07 C01
 //@   nopanic
 //@   requires c != nil
 //@   modifies c.points, c.points[..]
@@ -229,7 +229,7 @@ func vBez3(p0, p1, p2, p3, t Fl) Fl {
 //@   ensures fresh(c.path) || samebase(c.path, old(c.path))
 
 //@ func errParamMismatch
-//@   props C07 C18
+//@   props C07 C18 C01
 //@   nopanic
 //@   ensures result != nil
 
@@ -428,7 +428,7 @@ func vHrefGraphs() (int, []string) {
 // preserveAspectRatio: any attribute text is accepted without panicking; malformed values keep
 // the defaults
 //@ func parsePreserveAspectRatio
-//@   props C07 C18
+//@   props C07 C18 C01
 //@   nopanic
 //@   modifies nothing
 
